@@ -107,6 +107,15 @@ func (r *vRef) set(k, v []byte) {
 	}
 }
 
+// put adds a stored entry as it is (an empty value is a present key with an empty value).
+func (r *vRef) put(k, v []byte) {
+	if v == nil {
+		v = []byte{}
+	}
+	r.k = append(r.k, k)
+	r.v = append(r.v, v)
+}
+
 func vHas(keys [][]byte, k []byte) bool {
 	for _, x := range keys {
 		if bytes.Equal(x, k) {
@@ -139,7 +148,8 @@ func verifC19(strat int, integer bool, width, nStored, nIn int) {
 		}
 		for i := 0; i < nStored; i++ {
 			k := vKey(vName("s", i), integer, width)
-			v := zz.NondetBytes(vName("sv", i), 1)
+			// stored values of length 0 or 1: a key stored with an empty value is a present key
+			v := zz.NondetBytes(vName("sv", i), zz.Choice(vName("sv.len", i), 2))
 			if vHas(storedKeys, k) {
 				zz.Assume(false) // distinct stored keys
 			}
@@ -147,7 +157,7 @@ func verifC19(strat int, integer bool, width, nStored, nIn int) {
 				return err
 			}
 			storedKeys = append(storedKeys, k)
-			ref.set(k, v)
+			ref.put(k, v)
 		}
 		return nil
 	})
